@@ -43,8 +43,8 @@ Section Pass.
   Proof.
     unfold hs, delta. destruct (ffrozen x) eqn:E.
     - destruct (step1_frozen md rem tot l x E) as (_ & -> & ->). lra.
-    - destruct (step1_unfrozen md rem tot l x E) as (-> & -> & -> & _). fold (p x) (c x).
-      destruct (freeze_b tot (c x - p x)); lra.
+    - destruct (step1_unfrozen md rem tot l x E) as (-> & -> & -> & _). unfold c, p.
+      destruct (freeze_b tot (clamp (fit x) (prop1 md rem l x) - prop1 md rem l x)); lra.
   Qed.
 
   Lemma Ssp_step : Ssp avail gap l' == Ssp avail gap l - sumQ delta l.
@@ -199,13 +199,13 @@ Proof.
     + destruct (step1_unfrozen Grow rem tot l x E) as (-> & -> & _ & _).
       destruct (g_valid _ _ _ I x Hx) as (_ & _ & _ & Hv).
       split; [now apply Hc | split; [apply clamp_min | now apply clamp_max]].
-  - fold tot. rewrite (Ssp_step Grow avail gap rem l). fold tot.
+  - pose proof (Ssp_step Grow avail gap rem l) as K0. fold tot in K0.
     pose proof (g_S _ _ _ I) as HS.
-    pose proof (sum_c_hyp Grow avail gap rem l) as R2. fold tot in R2. rewrite HD in R2.
+    pose proof (sum_c_hyp Grow avail gap rem l) as R2. fold tot in R2. cbv beta in R2. rewrite HD in R2.
     destruct (Qeq_dec tot 0) as [T0|T0].
     + (* everything freezes: the surplus becomes what was not handed out *)
       pose proof (Ssp_when_tot_zero Grow avail gap rem l T0) as K. fold tot in K.
-      rewrite (Ssp_step Grow avail gap rem l) in K. fold tot in K. rewrite HD in K. lra.
+      rewrite HD in K. lra.
     + destruct (Qlt_le_dec 0 tot) as [P|P].
       * (* min violations freeze: they give room back *)
         assert (sumQ (delta Grow rem l) l <= 0).
@@ -329,12 +329,12 @@ Proof.
     + destruct (step1_unfrozen Shrink rem tot l x E) as (-> & -> & _ & _).
       destruct (s_valid _ _ _ I x Hx) as (_ & _ & _ & Hv).
       split; [now apply Hc | split; [apply clamp_min | now apply clamp_max]].
-  - fold tot. rewrite (Ssp_step Shrink avail gap rem l). fold tot.
+  - pose proof (Ssp_step Shrink avail gap rem l) as K0. fold tot in K0.
     pose proof (s_S _ _ _ I) as HS.
-    pose proof (sum_c_hyp Shrink avail gap rem l) as R2. fold tot in R2.
+    pose proof (sum_c_hyp Shrink avail gap rem l) as R2. fold tot in R2. cbv beta in R2.
     destruct (Qeq_dec tot 0) as [T0|T0].
     + pose proof (Ssp_when_tot_zero Shrink avail gap rem l T0) as K. fold tot in K.
-      rewrite (Ssp_step Shrink avail gap rem l) in K. fold tot in K. lra.
+      lra.
     + destruct (Qlt_le_dec tot 0) as [N|N].
       * (* max violations freeze: they take room *)
         assert (0 <= sumQ (delta Shrink rem l) l).
